@@ -207,6 +207,13 @@ func main() {
 
 	start := time.Now()
 	c, err := load(*repo, *overlay, configEnv(*config))
+	// a load that failed on import data ("could not import ..", packages without SSA) while other
+	// builds compete for the build cache is an accident of the moment, not a property of the tree:
+	// try again before giving up (a tree that really does not type-check fails the same way thrice)
+	for attempt := 0; err != nil && attempt < 2 && (strings.Contains(err.Error(), "could not import") || strings.Contains(err.Error(), "SSA packages missing")); attempt++ {
+		time.Sleep(time.Duration(3+4*attempt) * time.Second)
+		c, err = load(*repo, *overlay, configEnv(*config))
+	}
 	if err != nil {
 		for _, id := range ids {
 			fmt.Printf("UNDECIDED property=%s reason=%v\n", id, err)
